@@ -682,6 +682,8 @@ def dispatch(E, c, tc, args):
                     if (meth == "any" and i == 0) or (meth == "all" and i == 1):
                         return VBool(meth == "any")
                 return VBool(meth == "all")
+            if meth == "collect_vec":            # itertools
+                return VSeq(rest, "vec")
             if meth == "collect":
                 mt = re.search(r"collect::<(.*)>$", c, re.S)
                 tgt = last_seg_(mt.group(1)) if mt else "Vec"
